@@ -19,7 +19,8 @@ use lightning_signer::persist::Persist;
 use lightning_signer::policy::filter::{FilterRule, PolicyFilter};
 use lightning_signer::policy::validator::EnforcementState;
 use lightning_signer::signer::derive::KeyDerivationStyle;
-use lightning_signer::tx::tx::CommitmentInfo2;
+use lightning_signer::lightning::types::payment::PaymentHash;
+use lightning_signer::tx::tx::{CommitmentInfo2, HTLCInfo2};
 use lightning_signer::util::test_utils::{
     channel_commitment, counterparty_sign_holder_commitment, make_test_channel_setup,
     make_test_counterparty_keys, TestChannelContext, TestNodeContext,
@@ -41,9 +42,28 @@ const CP_SEED: [u8; 32] = [3u8; 32]; // commitment seed of make_test_counterpart
 fn holder_content(id: u64) -> (u64, u64) {
     match id {
         0..=3 => (VALUE - 1000 - 100 * id, 0),
-        4..=7 => (1_000_000 + 10_000 * (id - 4), VALUE - 20_000 - (1_000_000 + 10_000 * (id - 4))),
+        4..=7 => (
+            1_000_000 + 10_000 * (id - 4),
+            VALUE - 20_000 - (1_000_000 + 10_000 * (id - 4)) - HTLC_SAT * n_htlcs(id),
+        ),
         _ => (VALUE - 1000 - 100, 100),
     }
+}
+/// contents 6 and 7 carry one / two HTLCs offered TO the node (no invoice needed), so that the
+/// per-HTLC counterparty signatures are part of what is verified
+const HTLC_SAT: u64 = 10_000;
+fn n_htlcs(id: u64) -> u64 {
+    match id {
+        6 => 1,
+        7 => 2,
+        _ => 0,
+    }
+}
+/// HTLCs the node receives in content `id`
+fn incoming_htlcs(id: u64) -> Vec<HTLCInfo2> {
+    (0..n_htlcs(id))
+        .map(|k| HTLCInfo2 { value_sat: HTLC_SAT, payment_hash: PaymentHash([0x40 + k as u8; 32]), cltv_expiry: 1000 + k as u32 })
+        .collect()
 }
 fn content_ok(id: u64, n: u64) -> bool {
     match id {
@@ -221,8 +241,52 @@ impl Sys {
         let (to_h, to_c) = holder_content(id);
         let nctx = self.node_ctx();
         let cctx = self.chan_ctx.as_ref()?;
-        let mut ctx = channel_commitment(&nctx, cctx, n, 1100, to_h, to_c, vec![], vec![]);
+        let mut ctx = channel_commitment(&nctx, cctx, n, 1100, to_h, to_c, vec![], incoming_htlcs(id));
         Some(counterparty_sign_holder_commitment(&nctx, cctx, &mut ctx))
+    }
+}
+
+/// the counterparty's signatures for holder commitment `n` with content `id`; when `sig_ok` is
+/// false one of them is wrong: the commitment signature, or (contents with HTLCs) one HTLC
+/// signature while the commitment signature is the right one
+fn bad_or_good_sigs(
+    sys: &Sys,
+    rng: &mut Rng,
+    n: u64,
+    id: u64,
+    sigs: &Option<(Signature, Vec<Signature>)>,
+    sig_ok: bool,
+    short: bool,
+) -> (Signature, Vec<Signature>) {
+    match (sigs, sig_ok) {
+        (Some(s), true) => s.clone(),
+        (Some(s), false) if short => {
+            // the right signatures, but fewer HTLC signatures than HTLCs
+            let keep = rng.below(s.1.len() as u64) as usize;
+            (s.0, s.1[..keep].to_vec())
+        }
+        (Some(s), false) if !s.1.is_empty() && rng.chance(2, 3) => {
+            let mut hs = s.1.clone();
+            let k = rng.below(hs.len() as u64) as usize;
+            match rng.below(3) {
+                // the signature of another HTLC transaction / another commitment number
+                0 if hs.len() > 1 => {
+                    let j = (k + 1) % hs.len();
+                    hs[k] = hs[j];
+                }
+                0 | 1 => {
+                    hs[k] = sys.cp_sigs(n.wrapping_add(1), id).and_then(|o| o.1.get(k).cloned()).unwrap_or(s.0);
+                }
+                // the commitment signature in place of the HTLC signature
+                _ => hs[k] = s.0,
+            }
+            (s.0, hs)
+        }
+        (Some(s), false) => {
+            // a commitment signature over other contents, HTLC signatures untouched
+            (sys.cp_sigs(n, if id == 5 { 4 } else { 5 }).map(|o| o.0).unwrap_or(dummy_sig()), s.1.clone())
+        }
+        _ => (dummy_sig(), vec![]),
     }
 }
 
@@ -426,7 +490,7 @@ fn do_op(sys: &mut Sys, rng: &mut Rng, extremes: bool, script: Option<(u64, u64)
         // ---- holder validation (direct, phase 2)
         0..=17 => {
             let n = near(rng, next);
-            let id = if n == 0 { rng.below(3) } else { 4 + rng.below(3) };
+            let id = if n == 0 { rng.below(3) } else { 4 + rng.below(4) };
             let id = if !guided && rng.chance(1, 10) { 9 } else { id };
             let id = if n.wrapping_add(1) == next && rng.chance(2, 3) {
                 est.as_ref().and_then(|e| e.current_holder_commit_info.as_ref()).map(|i| content_id_of(i, true)).unwrap_or(id)
@@ -437,21 +501,22 @@ fn do_op(sys: &mut Sys, rng: &mut Rng, extremes: bool, script: Option<(u64, u64)
             let pol_ok = content_ok(id, n);
             let (to_h, to_c) = holder_content(id);
             let sigs = sys.cp_sigs(n, id);
-            let (sig, hs) = match (&sigs, sig_ok) {
-                (Some(s), true) => s.clone(),
-                _ => (sys.cp_sigs(n, if id == 5 { 6 } else { 5 }).map(|s| s.0).unwrap_or(dummy_sig()), vec![]),
-            };
+            // fewer HTLC signatures than HTLCs (the request dies on the running code: the history
+            // ends there, so this is rare)
+            let short = !sig_ok && sigs.as_ref().map(|s| !s.1.is_empty()).unwrap_or(false) && rng.chance(1, 3);
+            let (sig, hs) = bad_or_good_sigs(sys, rng, n, id, &sigs, sig_ok, short);
+            let sigq = if short { "SShort" } else { coq_bool(sig_ok) };
             let r = guarded(|| {
                 match node.with_channel(&cid, |c| {
-                    c.validate_holder_commitment_tx_phase2(n, 1100, to_h, to_c, vec![], vec![], &sig, &hs)
+                    c.validate_holder_commitment_tx_phase2(n, 1100, to_h, to_c, vec![], incoming_htlcs(id), &sig, &hs)
                 }) {
                     Ok(()) => Obs::ok(),
                     Err(_) => Obs::refused(),
                 }
             });
             (
-                format!("ValidateHolder {} {} {} {}", n, id, coq_bool(sig_ok), coq_bool(pol_ok)),
-                json!(["validate_holder", n, id, sig_ok, pol_ok]),
+                format!("ValidateHolder {} {} {} {}", n, id, sigq, coq_bool(pol_ok)),
+                json!(["validate_holder", n, id, if short { json!("short") } else { json!(sig_ok) }, pol_ok]),
                 r,
             )
         }
@@ -521,7 +586,7 @@ fn do_op(sys: &mut Sys, rng: &mut Rng, extremes: bool, script: Option<(u64, u64)
         }
         51..=52 => {
             let n = near(rng, next);
-            let id = if n == 0 { rng.below(3) } else { 4 + rng.below(3) };
+            let id = if n == 0 { rng.below(3) } else { 4 + rng.below(4) };
             let id = if n.wrapping_add(1) == next && rng.chance(1, 2) {
                 est.as_ref().and_then(|e| e.current_holder_commit_info.as_ref()).map(|i| content_id_of(i, true)).unwrap_or(id)
             } else {
@@ -530,7 +595,7 @@ fn do_op(sys: &mut Sys, rng: &mut Rng, extremes: bool, script: Option<(u64, u64)
             let pol_ok = content_ok(id, n);
             let (to_h, to_c) = holder_content(id);
             let r = guarded(|| match node.with_channel(&cid, |c| {
-                c.sign_holder_commitment_tx_phase2_redundant(n, 1100, to_h, to_c, vec![], vec![])
+                c.sign_holder_commitment_tx_phase2_redundant(n, 1100, to_h, to_c, vec![], incoming_htlcs(id))
             }) {
                 Ok(_) => Obs { hsig: Some((n, id)), ..Obs::ok() },
                 Err(_) => Obs::refused(),
@@ -548,7 +613,7 @@ fn do_op(sys: &mut Sys, rng: &mut Rng, extremes: bool, script: Option<(u64, u64)
             let pt_num = if decoy { n.wrapping_add(7) % 40 } else { n % 40 };
             let pt = point_of(&sys.secp, &cp_secret(pt_num));
             let pt_id = 1000 + pt_num;
-            let id = if n == 0 { rng.below(3) } else { 4 + rng.below(3) };
+            let id = if n == 0 { rng.below(3) } else { 4 + rng.below(4) };
             let id = if rng.chance(1, 10) { 9 } else { id };
             let id = if n.wrapping_add(1) == next_c && rng.chance(2, 3) {
                 est.as_ref().and_then(|e| e.current_counterparty_commit_info.as_ref()).map(|i| content_id_of(i, false)).unwrap_or(id)
@@ -558,7 +623,7 @@ fn do_op(sys: &mut Sys, rng: &mut Rng, extremes: bool, script: Option<(u64, u64)
             let pol_ok = content_ok(id, n);
             let (to_h, to_c) = cp_content(id);
             let r = guarded(|| match node.with_channel(&cid, |c| {
-                c.sign_counterparty_commitment_tx_phase2(&pt, n, 1100, to_h, to_c, vec![], vec![])
+                c.sign_counterparty_commitment_tx_phase2(&pt, n, 1100, to_h, to_c, incoming_htlcs(id), vec![])
             }) {
                 Ok(_) => Obs { cpsig: Some((n, pt_id, id)), ..Obs::ok() },
                 Err(_) => Obs::refused(),
@@ -601,23 +666,34 @@ fn do_op(sys: &mut Sys, rng: &mut Rng, extremes: bool, script: Option<(u64, u64)
         // ---- handler composites through real protocol messages
         84..=91 => {
             let n = near(rng, next);
-            let id = if n == 0 { rng.below(3) } else { 4 + rng.below(3) };
+            let id = if n == 0 { rng.below(3) } else { 4 + rng.below(4) };
             let sig_ok = guided || !rng.chance(1, 6);
             let pol_ok = content_ok(id, n);
             let (to_h, to_c) = holder_content(id);
             let sigs = sys.cp_sigs(n, id);
-            let (sig, _hs) = match (&sigs, sig_ok) {
-                (Some(s), true) => s.clone(),
-                _ => (sys.cp_sigs(n, if id == 5 { 6 } else { 5 }).map(|s| s.0).unwrap_or(dummy_sig()), vec![]),
-            };
+            // fewer HTLC signatures than HTLCs (the request dies on the running code: the history
+            // ends there, so this is rare)
+            let short = !sig_ok && sigs.as_ref().map(|s| !s.1.is_empty()).unwrap_or(false) && rng.chance(1, 3);
+            let (sig, hs) = bad_or_good_sigs(sys, rng, n, id, &sigs, sig_ok, short);
+            let sigq = if short { "SShort" } else { coq_bool(sig_ok) };
             let m = msgs::ValidateCommitmentTx2 {
                 commitment_number: n,
                 feerate: 1100,
                 to_local_value_sat: to_h,
                 to_remote_value_sat: to_c,
-                htlcs: Array(vec![]),
+                htlcs: Array(
+                    incoming_htlcs(id)
+                        .iter()
+                        .map(|h| model::Htlc {
+                            side: model::Htlc::REMOTE,
+                            amount: h.value_sat * 1000,
+                            payment_hash: model::Sha256(h.payment_hash.0),
+                            ctlv_expiry: h.cltv_expiry,
+                        })
+                        .collect(),
+                ),
                 signature: to_bsig(&sig),
-                htlc_signatures: Array(vec![]),
+                htlc_signatures: Array(hs.iter().map(to_bsig).collect()),
             };
             let sysr: &Sys = sys;
             let r = guarded(|| match sysr.handler.handle(Message::ValidateCommitmentTx2(m)) {
@@ -636,8 +712,8 @@ fn do_op(sys: &mut Sys, rng: &mut Rng, extremes: bool, script: Option<(u64, u64)
             });
             let name = if sys.proto < 5 { "HValidateOld" } else { "HValidateNew" };
             (
-                format!("{} {} {} {} {}{}", name, n, id, coq_bool(sig_ok), coq_bool(pol_ok), if sys.proto < 5 { " true" } else { "" }),
-                json!([name, n, id, sig_ok, pol_ok]),
+                format!("{} {} {} {} {}{}", name, n, id, sigq, coq_bool(pol_ok), if sys.proto < 5 { " true" } else { "" }),
+                json!([name, n, id, if short { json!("short") } else { json!(sig_ok) }, pol_ok]),
                 r,
             )
         }
